@@ -102,10 +102,6 @@ def pyIndex (s : Str) (i : Int) : Res Nat :=
 def intToStr (n : Int) : Str :=
   if n < 0 then 45 :: natToDigits n.natAbs else natToDigits n.toNat
 
-/-- `sum(int(d) for d in str(number))` — `'-'` is a `ValueError`. -/
-def digitSumInt (n : Int) : Res Int :=
-  if n < 0 then .crash .valueError else .ok (digitSum n.toNat)
-
 def adjustInput : List AdjustTag → Str → Res Str
   | .wm :: _, a => .ok a
   | .a26 :: _, a => .ok (if startsWith a [48, 48] then a.drop 2 ++ [48, 48] else a)
@@ -160,17 +156,19 @@ def getDigits (U : Unicode) (P : DEParams) : List DigitsTag → Str → Res Str
     pure (rstrip0 d)
   | _, _ => .crash .other
 
-def summand : List SummandTag → Int → Int → Res Int
+/-- `compute_summand(digit, weight)`; digits and weights are non-negative, so are all summands
+    (`digit_sum` of a non-negative number never meets a `'-'`). -/
+def summand : List SummandTag → Nat → Nat → Res Nat
   | .wm :: _, d, w => .ok (d * w)
-  | .a00 :: rest, d, w => do let x ← summand rest d w; digitSumInt x
-  | .a17 :: rest, d, w => do let x ← summand rest d w; digitSumInt x
-  | .a63 :: rest, d, w => do let x ← summand rest d w; digitSumInt x
+  | .a00 :: rest, d, w => do let x ← summand rest d w; pure (digitSum x)
+  | .a17 :: rest, d, w => do let x ← summand rest d w; pure (digitSum x)
+  | .a63 :: rest, d, w => do let x ← summand rest d w; pure (digitSum x)
   | .a22 :: rest, d, w => do let x ← summand rest d w; pure (x % 10)
   | .a24 :: rest, d, w => do let x ← summand rest d w; pure ((x + w) % 11)
   | _, _, _ => .crash .other
 
 /-- `sum(self.compute_summand(int(d), w) for d, w in zip(digits, cycle(self.weights)))`. -/
-def wmWeightedSum (U : Unicode) (P : DEParams) : Str → List Nat → Res Int
+def wmWeightedSum (U : Unicode) (P : DEParams) : Str → List Nat → Res Nat
   | c :: t, w :: ws => do
     let d ← U.intChar c
     let x ← summand P.summand d w
@@ -178,8 +176,13 @@ def wmWeightedSum (U : Unicode) (P : DEParams) : Str → List Nat → Res Int
     pure (x + r)
   | _, _ => .ok 0
 
+/-- The (non-negative) weighted sum as a Python `int`. -/
+def natToInt (n : Nat) : Int := n
+
 def weightedSumHook (U : Unicode) (P : DEParams) : List WSumTag → Str → Res Int
-  | .wm :: _, ds => wmWeightedSum U P ds (cycleWeights P.weights ds.length)
+  | .wm :: _, ds => do
+    let x ← wmWeightedSum U P ds (cycleWeights P.weights ds.length)
+    pure (natToInt x)
   | .a17 :: rest, ds => do let x ← weightedSumHook U P rest ds; pure (x - 1)
   | _, _ => .crash .other
 
